@@ -473,6 +473,18 @@ def checkTwin (k : Nat) (a b : ITrace) : List String :=
   (if a.probes.drop k == b.probes.drop k then [] else ["C13.remove_reversible.hooks"]) ++
   (if a.finalStat == b.finalStat then [] else ["C13.remove_reversible.count"])
 
+/-- C02 with drop-ins coming and going: on every tick each detector instance is run exactly as often as it was prerun - the set
+of rulesets (base + drop-ins) that `prerun` walks is the set `runOnce` evaluates; a drop-in applied or removed between the two
+passes of one tick breaks this.  (Detectors only: they run on every tick whatever fires.) -/
+def checkC02 (t : ITrace) : List String :=
+  let cnt (l : List Nat) (x : Nat) := (l.filter (· == x)).length
+  let allDets := (t.ticks.flatMap detSeq).eraseDups
+  let bad := t.ticks.any fun evs =>
+    let ds := detSeq evs
+    let ps := preSeq evs
+    allDets.any fun i => cnt ds i != cnt ps i
+  if bad then ["C02.same_rulesets_prerun_and_run"] else []
+
 def handle (j : Json) : Json :=
   let sc := jobj j "s"
   let tr := jobj j "t"
@@ -491,7 +503,8 @@ def handle (j : Json) : Json :=
         (acc2, check s2 impl2 ++ checkTwin (jnat sc "twin_from") impl impl2)
       else (true, [])
     let accepts := m == impl && twinOk.1
-    let viol := (check s impl ++ twinOk.2).eraseDups
+    -- the scenario's `prop` says whose clauses decide `holds` (C13 by default; C02 runs this engine as a second pass)
+    let viol := if jstr sc "prop" == "C02" then checkC02 impl else (check s impl ++ twinOk.2).eraseDups
     let firstDiff := ((m.ticks.zip impl.ticks).findIdx? fun (a, b) => a != b).getD (min m.ticks.length impl.ticks.length)
     verdict id accepts viol.isEmpty viol ""
       [("first_diff_tick", firstDiff),
